@@ -299,3 +299,45 @@ Proof.
     split; [rewrite Hcur, <- app_assoc; reflexivity|].
     split; [exact Hlen|]. split; [exact Hq|]. split; [intros [Hb|Hb] He; [auto|congruence]|]. split; [exact Hdl|]. auto.
 Qed.
+
+(** Stream.Read on a reserved frame type: the error surfaces, no bytes are delivered and the
+    connection is closed with H3_FRAME_UNEXPECTED. *)
+Lemma stream_read_reserved (x : stream) (blen t l : Z) (th lh rest : list Z) :
+  x_rem x = 0 -> benign (x_src x) -> venc th t -> venc lh l -> reserved_type t = true ->
+  s_data (x_src x) = th ++ lh ++ rest ->
+  exists x', stream_read x blen = ([], Some (EReserved t), x') /\
+             x_closed x' = close_conn (x_closed x) h3ErrCodeFrameUnexpected /\
+             s_data (x_src x') = rest.
+Proof.
+  intros H0 Hb Ht Hl Hr Hd. unfold stream_read. rewrite H0. cbn [Z.eqb].
+  unfold fuel_of.
+  destruct (parse_next_reserved (length (s_data (x_src x))) (x_src x) (x_closed x) t l th lh rest Hb Ht Hl Hr Hd)
+    as (s' & Hp & Hrest).
+  rewrite Hp. eexists. split; [reflexivity|]. cbn. auto.
+Qed.
+
+Lemma reserved_type_spec (t : Z) : reserved_type t = true <-> (t = 2 \/ t = 6 \/ t = 8 \/ t = 9).
+Proof.
+  unfold reserved_type. repeat rewrite orb_true_iff. repeat rewrite Z.eqb_eq. tauto.
+Qed.
+
+Lemma unknown_ignored_reserved_rejected :
+  (forall (f : nat) (s : src) (cl : option Z) (t : Z) (th lh p rest : list Z),
+     benign s -> venc th t -> venc lh (zlen p) -> ignorable t = true -> s_data s = th ++ lh ++ p ++ rest ->
+     exists s', parse_next (S f) s cl = parse_next f s' cl /\ s_data s' = rest /\ same_end s s') /\
+  (forall (f : nat) (s : src) (cl : option Z) (t l : Z) (th lh rest : list Z),
+     benign s -> venc th t -> venc lh l -> reserved_type t = true -> s_data s = th ++ lh ++ rest ->
+     exists s', parse_next (S f) s cl = (inl (EReserved t), s', close_conn cl h3ErrCodeFrameUnexpected) /\
+                s_data s' = rest) /\
+  (forall (x : stream) (blen t l : Z) (th lh rest : list Z),
+     x_rem x = 0 -> benign (x_src x) -> venc th t -> venc lh l -> reserved_type t = true ->
+     s_data (x_src x) = th ++ lh ++ rest ->
+     exists x', stream_read x blen = ([], Some (EReserved t), x') /\
+                x_closed x' = close_conn (x_closed x) h3ErrCodeFrameUnexpected /\
+                s_data (x_src x') = rest) /\
+  (forall t, reserved_type t = true <-> (t = 2 \/ t = 6 \/ t = 8 \/ t = 9)) /\
+  h3ErrCodeFrameUnexpected = 261.
+Proof.
+  split; [exact parse_next_ign|]. split; [exact parse_next_reserved|]. split; [exact stream_read_reserved|].
+  split; [exact reserved_type_spec|reflexivity].
+Qed.
